@@ -49,6 +49,9 @@ CORPORA = {
     "d1-win": dict(acts=["Window", "WindowReduce"], maxlen=1, preset="win", sim=False, emit_all=True),
     "d1-win-q": dict(acts=["Window", "WindowReduce"], maxlen=1, preset="win", sim=False, emit_all=True,
                      keep=lambda b: b["prog"][1].get("op", "sum") in ("sum", "max", "mean") and len(b["prog"][0]["shape"]) == 1),
+    "d1-win-sum2": dict(acts=["WindowReduce"], maxlen=1, preset="win", sim=False, emit_all=True,
+                        keep=lambda b: b["prog"][1].get("op") == "sum" and len(b["prog"][0]["shape"]) == 1 and b["prog"][1]["window"] in (2, 3)
+                        and b["prog"][0]["kind"] == "i"),
     # map_blocks with block_info / block_id above layout-changing sub-trees and below anything (C20)
     "d1-mapblocks": dict(acts=["MapBlocks"], maxlen=1, preset="mixed", sim=False, emit_all=True),
     "d2-above-mapblocks": dict(acts=ALL, acts2=["MapBlocks"], maxlen=2, preset="lean", sim=False, lean=True, workers=8),
@@ -60,6 +63,21 @@ CORPORA = {
     "d2-below-mapblocks": dict(acts=["MapBlocks"], acts2=ALL, maxlen=2, preset="lean", sim=False, lean=True, workers=8, excl=EXCL_DEEP),
     "d3-mapblocks-chain": dict(acts=["MapBlocks", "Index", "Rechunk", "Transpose"], maxlen=3, preset="lean1", sim=False, lean=True,
                                workers=8),
+    # unknown chunk sizes (C28): producers, compute_chunk_sizes, follow-on operations
+    "d2-unknown-ccs": dict(acts=["MaskSelect", "Unknown"], acts2=["ComputeChunkSizes"], maxlen=2, preset="small", sim=False, workers=4,
+                           observe_all=True),
+    "d2-unknown-follow": dict(acts=["MaskSelect", "Unknown"], acts2=ALL, maxlen=2, preset="lean", sim=False, lean=True, workers=8,
+                              excl=EXCL_DEEP),
+    "d3-unknown-ccs-follow": dict(acts=["MaskSelect", "Unknown"], acts2=["ComputeChunkSizes", "Index", "Elemwise", "Reduce", "Rechunk", "Take",
+                                                                      "Reshape", "ExpandSqueeze", "Concat", "Cumulative"],
+                                  maxlen=3, preset="lean1", sim=False, lean=True, workers=8),
+    "d3-unknown-ccs-follow2": dict(acts=["MaskSelect", "Unknown"], acts2=["ComputeChunkSizes", "Index", "Elemwise", "Reduce", "Transpose"],
+                                   maxlen=3, preset="lean2", sim=False, lean=True, workers=8),
+    # entry points that return collections, with follow-on operations (C05)
+    "d3-persist-follow1": dict(acts=ALL, acts2=["Persist"] + ALL, maxlen=3, preset="lean1", sim=False, lean=True, workers=8, excl=EXCL_DEEP,
+                               keep=lambda b: len(b["prog"]) == 4 and b["prog"][2]["a"] == "Persist"),
+    "d2-persist-follow2": dict(acts=["Persist"], acts2=ALL, maxlen=2, preset="lean2", sim=False, lean=True, workers=8, excl=EXCL_DEEP),
+    "d2-persist-follow3": dict(acts=["Persist"], acts2=ALL, maxlen=2, preset="lean3", sim=False, lean=True, workers=8, excl=EXCL_DEEP),
     # in-place histories: derive, mutate in place, derive (C11, C04)
     "d3-inplace1": dict(acts=INPLACE_ACTS, maxlen=3, preset="lean1", sim=False, lean=True, workers=8),
     "d2-inplace1-all": dict(acts=INPLACE_ACTS, maxlen=2, preset="lean1", sim=False, lean=True, workers=4, observe_all=True),
